@@ -247,6 +247,8 @@ type run struct {
 
 var cur *run // one property per process invocation
 
+var shrinkTime = "30s"
+
 func begin(t *testing.T, prop, level, rule string) *run {
 	t.Helper()
 	loadKnown()
@@ -455,6 +457,7 @@ func (s *Sub[C]) rapidRun(r *run, checks int, gen func(t *rapid.T) *C) {
 		mustSet("rapid.checks", strconv.Itoa(checks))
 		mustSet("rapid.seed", strconv.FormatUint(subSeed(s.prop+"/"+s.name), 10))
 		mustSet("rapid.nofailfile", "true")
+		mustSet("rapid.shrinktime", shrinkTime)
 		var lastPath, lastMsg string
 		failed := false
 		// rapid ends a failed check with FailNow (runtime.Goexit): record in a defer.
